@@ -168,10 +168,14 @@ Definition mro_of (done : list (list nat)) (b : nat) : list nat := nth b done []
 
 (* class_mixin.Class.compute_mro (no ParameterizedClass among the bases):
      bases = [[self]] + [list(base.mro) for base in bases] + [list(bases)];  mro.MROMerge(bases)
-   vm_utils.make_class turns MROError into an mro-error and the class into Any. *)
-Definition class_mro_py_gen (sing : nat -> bool) (done : list (list nat)) (self : nat) (bases : list nat)
-  : res (list nat) :=
-  merge_py_gen sing ([self] :: map (mro_of done) bases ++ [bases]).
+   vm_utils.make_class / convert._pytd_class_to_value turn MROError into an mro-error and the class into Any.
+   [dupcheck] says whether compute_mro raises MROError when the same class object is listed twice among the
+   bases: false on the unchanged tree (no such check exists), true with fixes/C10-duplicate-base.patch.
+   Which value describes the tree under test is established by the correspondence run on every check. *)
+Definition class_mro_py_gen (sing : nat -> bool) (dupcheck : bool)
+                            (done : list (list nat)) (self : nat) (bases : list nat) : res (list nat) :=
+  if dupcheck && negb (check_duplicates bases) then Reject
+  else merge_py_gen sing ([self] :: map (mro_of done) bases ++ [bases]).
 Definition class_mro_py := class_mro_py_gen no_sing.
 
 (* mro_implementation(type) *)
@@ -204,7 +208,8 @@ Fixpoint run_table (f : list (list nat) -> nat -> list nat -> res (list nat))
     end
   end.
 
-Definition mros_py (H : list (list nat)) : table_result := run_table class_mro_py [] H.
+Definition mros_py (dupcheck : bool) (H : list (list nat)) : table_result :=
+  run_table (class_mro_py dupcheck) [] H.
 Definition mros_c (H : list (list nat)) : table_result := run_table class_mro_c [] H.
 
 (* hypotheses on class tables *)
@@ -233,8 +238,8 @@ Definition table_error (r : table_result) : option nat :=
   match r with TableOk _ => None | TableErr _ i => Some i | TableBad _ i => Some i end.
 
 (* attribute [name] read through class [c] (or an instance of it without instance attributes) *)
-Definition lookup_py (H attrs : list (list nat)) (c name : nat) : option nat :=
-  lookup attrs (mro_of (table_mros (mros_py H)) c) name.
+Definition lookup_py (dupcheck : bool) (H attrs : list (list nat)) (c name : nat) : option nat :=
+  lookup attrs (mro_of (table_mros (mros_py dupcheck H)) c) name.
 Definition lookup_c (H attrs : list (list nat)) (c name : nat) : option nat :=
   lookup attrs (mro_of (table_mros (mros_c H)) c) name.
 
